@@ -10,6 +10,7 @@ import (
 
 	"lunar/engine/actions"
 	lunarMessages "lunar/engine/messages"
+	"lunar/engine/routing"
 
 	spoe "github.com/negasus/haproxy-spoe-go/action"
 	"pgregory.net/rapid"
@@ -198,7 +199,72 @@ func checkReq(seq []spec) error {
 	for i, s := range seq {
 		in[i] = s.req()
 	}
-	return checkReqOn(seq, in)
+	if err := checkReqOn(seq, in); err != nil {
+		return err
+	}
+	return handlerAgreesReq(seq)
+}
+
+// sameEncoding compares two encodings as the proxy reads them: the same variables, header blocks as name/value
+// sets (their line order follows map iteration), everything else by content.
+func sameEncoding(a, b spoe.Actions) error {
+	da, db := decode(a), decode(b)
+	if da.dup != "" {
+		return fmt.Errorf("encoding sets %q twice / unexpected action", da.dup)
+	}
+	if len(da.vars) != len(db.vars) {
+		return fmt.Errorf("variables %v, the fold judged above gives %v", keys(da.vars), keys(db.vars))
+	}
+	for name, va := range da.vars {
+		vb, ok := db.vars[name]
+		if !ok {
+			return fmt.Errorf("variables %v, the fold judged above gives %v", keys(da.vars), keys(db.vars))
+		}
+		switch name {
+		case actions.RequestHeadersActionName, actions.ResponseHeadersActionName, actions.RetryHeadersActionName:
+			ha, ea := parseDump(va)
+			hb, eb := parseDump(vb)
+			if ea != nil || eb != nil {
+				return fmt.Errorf("%s: %v / %v", name, ea, eb)
+			}
+			if !eqMap(ha, hb) {
+				return fmt.Errorf("%s carries %v, the fold judged above gives %v", name, ha, hb)
+			}
+		default:
+			sa, oka := bodyOf(va)
+			sb, okb := bodyOf(vb)
+			if oka != okb || (oka && sa != sb) || (!oka && !reflect.DeepEqual(va, vb)) {
+				return fmt.Errorf("%s is %.200v, the fold judged above gives %.200v", name, va, vb)
+			}
+		}
+	}
+	return nil
+}
+
+// handlerAgreesReq: the loop the gateway runs in flows mode (routing.getSPOEReqActions, reached through the
+// verif-tagged export) folds fresh action objects of the same content; what it hands to the proxy must be what
+// the fold judged by checkReqOn hands over - for every kind of action, also those no processor emits today.
+func handlerAgreesReq(seq []spec) error {
+	a, b := make([]actions.ReqLunarAction, len(seq)), make([]actions.ReqLunarAction, len(seq))
+	for i, s := range seq {
+		a[i], b[i] = s.req(), s.req()
+	}
+	if err := sameEncoding(routing.SPOEReqActionsForVerif(newOnRequest(), a), foldReq(b).ReqToSpoeActions()); err != nil {
+		return fmt.Errorf("the handler's own loop (getSPOEReqActions) over the same actions: %v", err)
+	}
+	return nil
+}
+
+func handlerAgreesResp(seq []spec) error {
+	a, b := make([]actions.RespLunarAction, len(seq)), make([]actions.RespLunarAction, len(seq))
+	for i, s := range seq {
+		a[i], b[i] = s.resp(), s.resp()
+	}
+	args := lunarMessages.OnResponse{ID: "t", Method: "GET", URL: "h.com/a", Status: 200, Headers: map[string]string{}}
+	if err := sameEncoding(routing.SPOERespActionsForVerif(args, a), foldResp(b).RespToSpoeActions()); err != nil {
+		return fmt.Errorf("the handler's own loop (getSPOERespActions) over the same actions: %v", err)
+	}
+	return nil
 }
 
 // checkReqOn judges the fold of the given action objects, whose content is described by seq.
@@ -394,7 +460,10 @@ func checkResp(seq []spec) error {
 	for i, s := range seq {
 		in[i] = s.resp()
 	}
-	return checkRespOn(seq, in)
+	if err := checkRespOn(seq, in); err != nil {
+		return err
+	}
+	return handlerAgreesResp(seq)
 }
 
 // checkRespOn judges the fold of the given action objects, whose content is described by seq.
